@@ -315,7 +315,12 @@ impl Module for M {
          moving the shape onto the origin (counters polyline:wide:*, triangle:wide:*, *:display-scale:*). \
          The counters polyline:join:*, triangle:join:*, polyline:skeleton-segments, triangle:collapsed-inside report the join kinds \
          exercised (computed by a port of the private join code and compared with the Lean model's classification in the result line). \
-         Non-trivial: at least one pixel drawn (C07: and a non-zero offset)."
+         Non-trivial: at least one pixel drawn (C07: and a non-zero offset). \
+         C01 (when the check of C01 runs this module): a small slice of the same two streams for the three drawing paths - every \
+         segment of the 5x5 lattice x widths 0..=5 (thorough 6x6 x 0,1,2,3,4,5,7,9), every triple of a 4x3 sub-lattice (thorough 5x4) \
+         with widths rotating, 600 (6000) sampled 4/5-vertex polylines, the skeleton shapes, ALL triangles of the 4x4 (5x5) lattice x 3 \
+         alignments with widths 0,1,2,3,4,6,9 and four colour options (stroke, fill+stroke, fill, none) rotating, 250 (2500) seeded \
+         random polylines and triangles within +-60, the fixed wide-stroke shapes; counters polyline:c01:*, triangle:c01:*."
     }
 
     fn generate(&self, pid: &str, tier: Tier, rng: &mut Rng, emit: &mut dyn FnMut(String)) {
@@ -495,7 +500,15 @@ impl Module for M {
 //
 // Oracles (property texts as predicates on the real results; the logic of m_styled.rs):
 //   C02:outside-bbox:thick-polyline      every pixel drawn (draw() and pixels()) lies inside bounding_box()
-//   C01:pixels-vs-draw:thick-polyline    pixels() and draw() paint the same set
+//   C01:pixels-vs-draw:thick-polyline    pixels() and draw() paint the same set (check of C01: also draw_iter(pixels()) vs draw()
+//                                        on two bounded targets that cut the shape)
+//   C01:default-vs-native:thick-polyline (check of C01 only) draw() leaves the same map on a draw_iter-only target (trait
+//                                        defaults) and on a native-fill target, unbounded and on the two bounded targets;
+//                                        likewise C01:default-vs-native:thick-triangle. Counters `*:c01:*` report the paths
+//                                        taken (width 0 / 1 / thick, translated target), triangles whose scanlines overlap
+//                                        (with different colours: the order of the calls decides) and whether the write
+//                                        sequence of draw() through the trait defaults equals the sequence of pixels()
+//                                        (what Props/C01/{Polyline,Triangle}.lean prove of the model; an observation).
 //   C07:translate-field:thick-polyline   picture / non-empty bounding box of the polyline with `translate` = t
 //                                        is the picture / box of the untranslated polyline shifted by t
 //   C07:translate-mut-differs:thick-polyline
@@ -545,7 +558,142 @@ fn offset_for(pid: &str, k: usize) -> (i32, i32) {
     }
 }
 
+/// Fill / stroke colour options of the C01 slice: the three of `TRI_STYLES` plus "no colour at all".
+const C01_TRI_STYLES: [(Option<u32>, Option<u32>); 4] = [(None, Some(1)), (Some(2), Some(1)), (Some(2), None), (None, None)];
+
+/// The C01 slice of the joins streams (runs only when `modules_for("C01")` lists `thick`): every path of
+/// `draw_styled` / `pixels()` of stroked polylines (width 0: nothing; 1: one `draw_iter` of `points()`; > 1:
+/// one `fill_solid` per scanline, on `target.translated(..)` when `translate` is non-zero) and of styled
+/// triangles (widths 0, 1 and wider x three alignments x four colour options, transparent ones included).
+/// Small on purpose (quick ~19 000 ops, ~10 s for both sides): the exhaustive lattices of C02 / C07 cover the join
+/// geometry; here the op's oracles compare the three drawing paths (classes `C01:*:thick-*`), and the result
+/// line (`draw=` call log on R2, `px=` pixel sequence) ties Props/C01/{Polyline,Triangle}.lean to the code.
+fn generate_c01_joins(tier: Tier, rng: &mut Rng, emit: &mut dyn FnMut(String)) {
+    let quick = tier == Tier::Quick;
+    let pid = "C01";
+    let (lx, ly): (Vec<i32>, Vec<i32>) = if quick {
+        (LAT_X.to_vec(), LAT_Y.to_vec())
+    } else {
+        (vec![-7, -4, -1, 0, 2, 6], vec![-8, -5, -2, 0, 1, 3])
+    };
+    let mut lat: Vec<(i32, i32)> = Vec::new();
+    for &y in &ly {
+        for &x in &lx {
+            lat.push((x, y));
+        }
+    }
+    // a sub-lattice for the triples (quick 4 x 3, thorough 5 x 4 points)
+    let sub: Vec<(i32, i32)> = lat
+        .iter()
+        .copied()
+        .filter(|(x, y)| *x != lx[1] && *y != ly[1] && (quick && *y != ly[3] || !quick && *y != ly[4]))
+        .collect();
+    let widths: Vec<u32> = if quick { vec![0, 1, 2, 3, 4, 5] } else { vec![0, 1, 2, 3, 4, 5, 7, 9] };
+    let mut k = 0usize;
+    for &w in &widths {
+        emit(poly_op(offset_for(pid, 0), &[], w));
+        emit(poly_op(offset_for(pid, 1), &[(2, -3)], w));
+        emit(poly_op(offset_for(pid, 2), &[(2, -3), (2, -3)], w));
+    }
+    // every segment of the lattice x every width
+    for &a in &lat {
+        for &b in &lat {
+            for &w in &widths {
+                k += 1;
+                emit(poly_op(offset_for(pid, k), &[a, b], w));
+            }
+        }
+    }
+    // every triple of the sub-lattice, widths rotating (repeated vertices, reversals, colinear triples included)
+    for &a in &sub {
+        for &b in &sub {
+            for &c in &sub {
+                k += 1;
+                emit(poly_op(offset_for(pid, k), &[a, b, c], widths[1 + k % (widths.len() - 1)]));
+            }
+        }
+    }
+    // 4- and 5-vertex ones: arbitrary, closed-looking, going back over a segment (overlapping scanlines of one row)
+    let nsample = if quick { 600 } else { 6000 };
+    for i in 0..nsample {
+        let n = if i % 4 == 3 { 5 } else { 4 };
+        let mut vs: Vec<(i32, i32)> = (0..n).map(|_| *rng.pick(&lat)).collect();
+        match i % 5 {
+            1 => {
+                let f = vs[0];
+                *vs.last_mut().unwrap() = f;
+            }
+            2 => vs[2] = vs[0],
+            3 => vs[2] = vs[1],
+            _ => {}
+        }
+        k += 1;
+        emit(poly_op(offset_for(pid, k), &vs, *rng.pick(&widths)));
+    }
+    for base in SKELETON_BASES {
+        for &d in &lat {
+            k += 1;
+            emit(poly_op(offset_for(pid, k), &[base[0], base[1], base[2], d], 2));
+        }
+    }
+    // triangles: every triangle of a 4 x 4 lattice (thorough 5 x 5) x three alignments, widths and colour options
+    // rotating independently (periods 7 and 4)
+    let (tx, ty): (Vec<i32>, Vec<i32>) = if quick { (vec![-3, -1, 0, 4], vec![-4, 0, 1, 3]) } else { (vec![-5, -3, -1, 0, 4], vec![-6, -4, 0, 1, 3]) };
+    let tw: [u32; 7] = [0, 1, 2, 3, 4, 6, 9];
+    let mut j = 0usize;
+    for &ay in &ty {
+        for &ax in &tx {
+            for &by in &ty {
+                for &bx in &tx {
+                    for &cy in &ty {
+                        for &cx in &tx {
+                            for align in 0..3u32 {
+                                j += 1;
+                                let (fill, stroke) = C01_TRI_STYLES[j % 4];
+                                emit(tri_op(offset_for(pid, j / 3), &[(ax, ay), (bx, by), (cx, cy)], tw[j % 7], align, fill, stroke));
+                            }
+                        }
+                    }
+                }
+            }
+        }
+    }
+    // seeded random ones within +-60, moved by up to +-80
+    let nrand = if quick { 250 } else { 2500 };
+    for _ in 0..nrand {
+        let n = rng.range(2, 6) as usize;
+        let vs: Vec<(i32, i32)> = (0..n).map(|_| (rng.range(-60, 60) as i32, rng.range(-60, 60) as i32)).collect();
+        let tr = (rng.range(-80, 80) as i32, rng.range(-80, 80) as i32);
+        emit(poly_op(tr, &vs, rng.range(0, 9) as u32));
+        let mut p = || (rng.range(-60, 60) as i32, rng.range(-60, 60) as i32);
+        let v = [p(), p(), p()];
+        let w = rng.range(0, 12) as u32;
+        let align = rng.below(3) as u32;
+        let (fill, stroke) = *rng.pick(&C01_TRI_STYLES);
+        let d = (rng.range(-80, 80) as i32, rng.range(-80, 80) as i32);
+        emit(tri_op(d, &v, w, align, fill, stroke));
+    }
+    // wide strokes on fixed small shapes (the widths of the display-scale slice)
+    for &w in &WIDE_W {
+        for vs in [vec![(-20, -10), (30, 15)], vec![(-30, 5), (10, -25), (40, 20)], vec![(-25, 0), (25, 3), (-20, 6), (30, -9)]] {
+            k += 1;
+            emit(poly_op(offset_for(pid, k), &vs, w));
+        }
+        for v in [[(-30, -20), (40, -5), (5, 35)], [(-40, 0), (40, 6), (0, -3)]] {
+            for align in 0..3u32 {
+                k += 1;
+                let (fill, stroke) = C01_TRI_STYLES[k % 3];
+                emit(tri_op(offset_for(pid, k), &v, w, align, fill, stroke));
+            }
+        }
+    }
+}
+
 fn generate_joins(pid: &str, tier: Tier, rng: &mut Rng, emit: &mut dyn FnMut(String)) {
+    if pid == "C01" {
+        generate_c01_joins(tier, rng, emit);
+        return;
+    }
     if !(pid == "C02" || pid == "C07" || pid == "C19") {
         return;
     }
@@ -811,6 +959,56 @@ fn exec_polyline(t: &mut Toks, op: &str, ctx: &mut Ctx) -> String {
     ctx.expect(pxset == r2.rec.map, "C01:pixels-vs-draw:thick-polyline", || {
         format!("draw() {} px, pixels() {} px", r2.rec.map.len(), pxset.len())
     });
+    if ctx.pid == "C01" {
+        // the third path: draw() on a draw_iter-only target (trait defaults), unbounded and on targets that cut the shape
+        let mut r1 = R1::<BinaryColor>::unbounded();
+        styled.draw(&mut r1).unwrap();
+        ctx.expect(r1.rec.map == r2.rec.map, "C01:default-vs-native:thick-polyline", || {
+            format!("draw_iter-only target {} px, native-fill target {} px, {} differing entries", r1.rec.map.len(), r2.rec.map.len(), map_diff(&r1.rec.map, &r2.rec.map))
+        });
+        ctx.count(match w {
+            0 => "polyline:c01:width-0",
+            1 => "polyline:c01:width-1:one-draw_iter",
+            _ => {
+                if tr != Point::zero() {
+                    "polyline:c01:thick:translated-target"
+                } else {
+                    "polyline:c01:thick:plain-target"
+                }
+            }
+        });
+        // what Props/C01/Polyline.lean `styled_polyline_writes_agree` says, on the real code: through the trait defaults
+        // draw() offers the target exactly the pixel sequence of pixels() (an observation: the property text speaks of maps)
+        let seq: Vec<Point> = r1
+            .rec
+            .log
+            .iter()
+            .flat_map(|c| match c {
+                Call::DrawIter(v) => v.iter().map(|((x, y), _)| Point::new(*x, *y)).collect::<Vec<_>>(),
+                _ => Vec::new(),
+            })
+            .collect();
+        ctx.count(if seq == px { "polyline:c01:draw-write-sequence=pixels-sequence" } else { "polyline:c01:draw-write-sequence-differs" });
+        if !r2.rec.map.is_empty() && bb.size.width <= 4096 && bb.size.height <= 4096 {
+            let (w3, h3) = ((bb.size.width / 3) as i32 + 1, (bb.size.height / 3) as i32 + 1);
+            for tl in [bb.top_left + Point::new(w3, h3), bb.top_left - Point::new(w3, h3)] {
+                let b = Rectangle::new(tl, bb.size);
+                let (mut b1, mut b2, mut bp) = (R1::<BinaryColor>::new(b), R2::<BinaryColor>::new(b), R1::<BinaryColor>::new(b));
+                styled.draw(&mut b1).unwrap();
+                styled.draw(&mut b2).unwrap();
+                bp.draw_iter(styled.pixels()).unwrap();
+                if b2.rec.map.len() != r2.rec.map.len() {
+                    ctx.count("polyline:c01:cut-by-a-bounded-target");
+                }
+                ctx.expect(b1.rec.map == b2.rec.map, "C01:default-vs-native:thick-polyline", || {
+                    format!("target {}: draw_iter-only {} px, native-fill {} px", fmt_rect(&b), b1.rec.map.len(), b2.rec.map.len())
+                });
+                ctx.expect(bp.rec.map == b2.rec.map, "C01:pixels-vs-draw:thick-polyline", || {
+                    format!("target {}: draw_iter(pixels()) {} px, draw() {} px", fmt_rect(&b), bp.rec.map.len(), b2.rec.map.len())
+                });
+            }
+        }
+    }
 
     // C07, `translate` field
     let (m0, bb0) = poly_picture(&vs, Point::zero(), w);
@@ -1369,6 +1567,61 @@ fn exec_triangle(t: &mut Toks, op: &str, ctx: &mut Ctx) -> String {
         mp.insert((p.y, p.x), *c);
     }
     ctx.expect(mp == *m, "C01:pixels-vs-draw:thick-triangle", || format!("draw() {} px, pixels() {} px, {} differing entries", m.len(), mp.len(), map_diff(m, &mp)));
+    if ctx.pid == "C01" {
+        // the third path: draw() on a draw_iter-only target (trait defaults), unbounded and on targets that cut the shape
+        let mut d1 = R1::<Rgb565>::unbounded();
+        styled.draw(&mut d1).unwrap();
+        ctx.expect(d1.rec.map == *m, "C01:default-vs-native:thick-triangle", || {
+            format!("draw_iter-only target {} px, native-fill target {} px, {} differing entries", d1.rec.map.len(), m.len(), map_diff(&d1.rec.map, m))
+        });
+        // scanlines of different colours that overlap: there the ORDER of the calls decides the picture
+        let covered: usize = r2.rec.log.iter().map(|c| if let Call::FillSolid(r, _) = c { r.size.width as usize } else { 0 }).sum();
+        if covered > m.len() {
+            ctx.count("triangle:c01:overlapping-scanlines");
+            let mut first: PMap = PMap::new();
+            for c in &r2.rec.log {
+                if let Call::FillSolid(r, col) = c {
+                    for x in 0..r.size.width as i32 {
+                        first.entry((r.top_left.y, r.top_left.x + x)).or_insert(*col);
+                    }
+                }
+            }
+            if first != *m {
+                ctx.count("triangle:c01:overlap-of-different-colours(last-write-decides)");
+            }
+        }
+        // what Props/C01/Triangle.lean `styled_triangle_writes_agree` says, on the real code: through the trait defaults
+        // draw() offers the target exactly the pixel sequence of pixels() (an observation: the property text speaks of maps)
+        let seq: Vec<(Point, u32)> = d1
+            .rec
+            .log
+            .iter()
+            .flat_map(|c| match c {
+                Call::DrawIter(v) => v.iter().map(|((x, y), c)| (Point::new(*x, *y), *c)).collect::<Vec<_>>(),
+                _ => Vec::new(),
+            })
+            .collect();
+        ctx.count(if seq == px { "triangle:c01:draw-write-sequence=pixels-sequence" } else { "triangle:c01:draw-write-sequence-differs" });
+        if !m.is_empty() && bb.size.width <= 4096 && bb.size.height <= 4096 {
+            let (w3, h3) = ((bb.size.width / 3) as i32 + 1, (bb.size.height / 3) as i32 + 1);
+            for tl in [bb.top_left + Point::new(w3, h3), bb.top_left - Point::new(w3, h3)] {
+                let b = Rectangle::new(tl, bb.size);
+                let (mut b1, mut b2, mut bp) = (R1::<Rgb565>::new(b), R2::<Rgb565>::new(b), R1::<Rgb565>::new(b));
+                styled.draw(&mut b1).unwrap();
+                styled.draw(&mut b2).unwrap();
+                bp.draw_iter(styled.pixels()).unwrap();
+                if b2.rec.map.len() != m.len() {
+                    ctx.count("triangle:c01:cut-by-a-bounded-target");
+                }
+                ctx.expect(b1.rec.map == b2.rec.map, "C01:default-vs-native:thick-triangle", || {
+                    format!("target {}: draw_iter-only {} px, native-fill {} px", fmt_rect(&b), b1.rec.map.len(), b2.rec.map.len())
+                });
+                ctx.expect(bp.rec.map == b2.rec.map, "C01:pixels-vs-draw:thick-triangle", || {
+                    format!("target {}: draw_iter(pixels()) {} px, draw() {} px", fmt_rect(&b), bp.rec.map.len(), b2.rec.map.len())
+                });
+            }
+        }
+    }
 
     // C07: the moved triangle against the unmoved one
     let s0 = tri0.into_styled(style);
